@@ -295,8 +295,31 @@ impl Node {
     /// Hard deletions are not synchronized
     ///
     pub fn delete(id: &Uid, conn: &Connection) -> std::result::Result<(), rusqlite::Error> {
+        Self::delete_fts(id, conn)?;
         let mut delete_stmt = conn.prepare_cached("DELETE FROM _node WHERE id=? ")?;
         delete_stmt.execute([id])?;
+        Ok(())
+    }
+
+    /// Removes the full text entries of a row that is about to be deleted, if it has some:
+    /// SQLite can give its rowid to a later row, that would be found by the text of the deleted one
+    pub fn delete_fts(id: &Uid, conn: &Connection) -> std::result::Result<(), rusqlite::Error> {
+        let mut indexed_stmt = conn.prepare_cached(
+            "SELECT _node.rowid, _json FROM _node JOIN _node_fts ON _node_fts.rowid=_node.rowid WHERE id=?",
+        )?;
+        let indexed: Option<(i64, Option<String>)> = indexed_stmt
+            .query_row([id], |row| Ok((row.get(0)?, row.get(1)?)))
+            .optional()?;
+        if let Some((rowid, json)) = indexed {
+            let mut text = String::new();
+            if let Some(Ok(val)) = json.map(|j| serde_json::from_str::<Value>(&j)) {
+                let _ = extract_json(&val, &mut text);
+            }
+            let mut delete_fts_stmt = conn.prepare_cached(
+                "INSERT INTO _node_fts (_node_fts, rowid, text) VALUES('delete', ?, ?)",
+            )?;
+            delete_fts_stmt.execute((rowid, text))?;
+        }
         Ok(())
     }
 
@@ -1002,6 +1025,7 @@ impl NodeDeletionEntry {
                 let entity: String = row.get(0)?;
                 let mdate: i64 = row.get(1)?;
                 daily_log.set_need_update(node.room_id, &entity, mdate);
+                Node::delete_fts(&node.id, conn)?;
             }
             drop(rows);
             stmt.execute((node.room_id, node.id))?;
